@@ -98,7 +98,9 @@ SPEC = {
     "lean_modules": ["RsslVerif.Thm.C13"],
     "theorems": [T + n for n in [
         "consteval_no_panic", "tables_panic_free", "consteval_agrees", "div_mod_zero_not_constant",
-        "div_mod_zero_not_constant_expr", "literal_exact", "literal_neg_exact", "positions_use_eval"]],
+        "div_mod_zero_not_constant_expr", "literal_exact", "literal_neg_exact", "positions_use_eval",
+        "float_round_nearest_even", "int_to_float_nearest_even", "float_to_float_nearest_even", "float_widen_exact",
+        "float_to_int_trunc_saturate"]],
     "harness": "c13",
     "nontrivial": nontrivial,
     "finding_key": finding_key,
